@@ -12,6 +12,9 @@ from mc.lib import events, records
 
 ID = 'C07'
 LEVEL = 'model_checking'
+# fewer non-trivial cases than this share of all cases means that the
+# exploration has become vacuous (reported as INTERNAL-ERROR, never as a pass)
+MIN_NONTRIVIAL_FRACTION = 0.15
 RULE = (
     'Differential oracle, no expected values: every base record (all '
     'ternary records rain in {0,=s,>s} x increment in {fall, exactly j*dt, '
